@@ -51,6 +51,61 @@ Check (heap_perms_length : forall (A : Type) (l : list A),
 Check (heap_perms_map : forall (A B : Type) (f : A -> B) (l : list A),
   heap_perms (map f l) = map (map f) (heap_perms l)).
 
+(* (5') on a list with repeated elements (a blank node related to another one through several
+   quads) the arrangements visited do not depend on the order in which the list is given *)
+Check (heap_perms_start_independent : forall (A : Type) (l l' p : list A),
+  Permutation l l' -> In p (heap_perms l) -> In p (heap_perms l')).
+(* (4') the comparator of the final sort answers Equal only for identical quads / terms, so the
+   document is a function of the set of relabelled quads, not of the order the dataset yields them *)
+Check (quad_cmp_eq_inj : forall q1 q2, wf_quad q1 -> wf_quad q2 -> quad_cmp q1 q2 = Eq -> q1 = q2).
+Check (cmp_c14n_eq_inj : forall a b, wf_term a -> wf_term b ->
+  cmp_c14n (Some a) (Some b) = Eq -> a = b).
+Check (same_lexical_form_other_datatype : forall l d1 d2,
+  ~ In 62 d1 -> ~ In 62 d2 -> d1 <> d2 ->
+  cmp_c14n (Some (LitDt l d1)) (Some (LitDt l d2)) <> Eq).
+Check (serialize_order_independent : forall qs qs',
+  Forall wf_quad qs -> Permutation qs qs' -> serialize qs = serialize qs').
+(* (7) the other ways in and out: entry points with the default limits, a dataset whose iterator
+   fails, a writer that takes a limited number of bytes *)
+Check (normalize_default_is_with : forall H fuel d,
+  normalize_default H fuel d = normalize_with H (mkVar true true) fuel (Some 1000) (Some 6) d).
+Check (normalize_default_relabel : forall H fuel d,
+  normalize_default H fuel d
+  = match relabel_default H fuel d with
+    | Ok (qs, issued) => Ok (serialize qs, issued)
+    | Err e => Err e
+    end).
+Check (impl2_ok_split : forall repaired tbl d c b i c' b' i',
+  impl2_ok repaired tbl d c b i c' b' i'
+  = impl_ok repaired tbl 1000 6 d c b i && impl_ok true tbl 1000 6 d c' b' i').
+Check (run_ok_split : forall repaired tbl df pl d c b i dflt bud,
+  run_ok repaired tbl df pl d c b i dflt bud
+  = impl_ok repaired tbl df pl d c b i
+    && match dflt with
+       | None => true
+       | Some (c', b', i') => impl_ok true tbl 1000 6 d c' b' i'
+       end
+    && match bud with
+       | None => true
+       | Some (budget, wcode, written) => budget_ok repaired tbl df pl d budget wcode written
+       end).
+Check (collect_src_all : forall d, collect_src (map Some d) = Some d).
+Check (collect_src_inv : forall items d, collect_src items = Some d -> items = map Some d).
+Check (normalize_src_all : forall H v fuel df pl d,
+  normalize_src H v fuel df pl (map Some d) = Some (normalize_with H v fuel df pl d)).
+Check (normalize_src_fails : forall H v fuel df pl items,
+  In None items -> normalize_src H v fuel df pl items = None).
+Check (budget_write_seq_spec : forall budget bufs acc, (length acc <= budget)%nat ->
+  budget_write_seq budget acc bufs
+  = (firstn budget (acc ++ concat bufs), (length (acc ++ concat bufs) <=? budget)%nat)).
+Check (normalize_budget_spec : forall H v fuel df pl budget d bytes issued,
+  normalize_with H v fuel df pl d = Ok (bytes, issued) ->
+  normalize_budget H v fuel df pl budget d
+  = (firstn budget bytes, if (length bytes <=? budget)%nat then WOk else WIo)).
+Check (normalize_budget_err : forall H v fuel df pl budget d e,
+  normalize_with H v fuel df pl d = Err e ->
+  normalize_budget H v fuel df pl budget d = ([], WErr e)).
+
 (* (6a) what step 2 computes (the repaired code: each quad once per blank node it mentions; the
    code before the repair: once per occurrence) *)
 Check (b2q_spec : forall d m b, step2 true d [] = Ok m ->
@@ -115,6 +170,20 @@ Check (run_ties_defined : forall H v fuel df pl d r,
 (* non-vacuity *)
 Example heap_123 : heap_perms [1;2;3] = [[1;2;3];[2;1;3];[3;1;2];[1;3;2];[2;3;1];[3;2;1]].
 Proof. reflexivity. Qed.
+(* a related-node list with repeated elements: every arrangement is visited, whatever the start *)
+Example heap_multiset : In [2;2;1;1] (heap_perms [1;2;2;1]) /\ In [1;1;2] (heap_perms [2;1;1])
+  /\ length (heap_perms [1;2;2;1]) = 24%nat.
+Proof. vm_compute. intuition. Qed.
+(* same lexical form, other datatype: different lines, in code point order of the datatype *)
+Example twins_example :
+  quad_cmp (Bnode [120], Iri [112], LitDt [49] (xsd_string ++ [50]), None)
+           (Bnode [120], Iri [112], LitDt [49] [116;97;103;58;100;116], None) = Lt.
+Proof. reflexivity. Qed.
+Example budget_example :
+  budget_write_seq 5 [] [[1;2;3]; [4;5;6]; [7]] = ([1;2;3;4;5], false)
+  /\ budget_write_seq 7 [] [[1;2;3]; [4;5;6]; [7]] = ([1;2;3;4;5;6;7], true)
+  /\ collect_src [Some (Bnode [120], Iri [112], Bnode [120], None); None] = None.
+Proof. repeat split; reflexivity. Qed.
 Example esc_example : esc [34;92;10;13;9;8;12;127;0;31;233]
   = [92;34; 92;92; 92;110; 92;114; 92;116; 92;98; 92;102; 92;117;48;48;55;70;
      92;117;48;48;48;48; 92;117;48;48;49;70; 233].
@@ -134,6 +203,22 @@ Print Assumptions heap_perms_complete.
 Print Assumptions heap_perms_nodup.
 Print Assumptions heap_perms_length.
 Print Assumptions heap_perms_map.
+Print Assumptions heap_perms_start_independent.
+Print Assumptions quad_cmp_eq_inj.
+Print Assumptions cmp_c14n_eq_inj.
+Print Assumptions same_lexical_form_other_datatype.
+Print Assumptions serialize_order_independent.
+Print Assumptions normalize_default_is_with.
+Print Assumptions normalize_default_relabel.
+Print Assumptions impl2_ok_split.
+Print Assumptions run_ok_split.
+Print Assumptions collect_src_all.
+Print Assumptions collect_src_inv.
+Print Assumptions normalize_src_all.
+Print Assumptions normalize_src_fails.
+Print Assumptions budget_write_seq_spec.
+Print Assumptions normalize_budget_spec.
+Print Assumptions normalize_budget_err.
 Print Assumptions b2q_spec.
 Print Assumptions b2q_spec_prefix.
 Print Assumptions h1d_invariant.
